@@ -62,6 +62,8 @@ def random_netlist(rng: random.Random, ni=None, ng=None, types=ALL18, amax=5, lo
     for k in range(ng):
         avail = ni + k
         t = rng.choice(types)
+        if avail == 0:
+            t = rng.choice([x for x in types if x in NULLARY] or ['ALWAYS_TRUE'])
         if t in NULLARY:
             n = 0
         elif t in UNARY:
